@@ -17,7 +17,7 @@ func genH(t *rapid.T) H {
 }
 
 func GenOverlap(t *rapid.T) *OverlapCase {
-	c := &OverlapCase{Ambient: genAmbient(t), Rounds: 5, Procs: rapid.SampledFrom([]int{1, 2, 4, 16}).Draw(t, "procs")}
+	c := &OverlapCase{ViaAny: rapid.IntRange(0, 2).Draw(t, "viaAny") == 0, Ambient: genAmbient(t), Rounds: 5, Procs: rapid.SampledFrom([]int{1, 2, 4, 16}).Draw(t, "procs")}
 	nh := rapid.IntRange(1, 3).Draw(t, "nh")
 	for i := 0; i < nh; i++ {
 		c.Handlers = append(c.Handlers, genH(t))
@@ -40,7 +40,7 @@ func GenOverlap(t *rapid.T) *OverlapCase {
 }
 
 func GenOrder(t *rapid.T) *OrderCase {
-	c := &OrderCase{Ambient: genAmbient(t), N: rapid.IntRange(1, 50).Draw(t, "n"), Procs: rapid.SampledFrom([]int{1, 2, 4, 16}).Draw(t, "procs"), UseCtx: rapid.Bool().Draw(t, "usectx")}
+	c := &OrderCase{ViaAny: rapid.IntRange(0, 2).Draw(t, "viaAny") == 0, Ambient: genAmbient(t), N: rapid.IntRange(1, 50).Draw(t, "n"), Procs: rapid.SampledFrom([]int{1, 2, 4, 16}).Draw(t, "procs"), UseCtx: rapid.Bool().Draw(t, "usectx")}
 	nh := rapid.IntRange(1, 2).Draw(t, "nh")
 	for i := 0; i < nh; i++ {
 		c.Handlers = append(c.Handlers, H{Ctx: rapid.Bool().Draw(t, "ctx"), Async: true, SeqFirst: rapid.Bool().Draw(t, "seqFirst")})
@@ -54,7 +54,7 @@ func GenOrder(t *rapid.T) *OrderCase {
 }
 
 func GenBurst(t *rapid.T) *BurstCase {
-	c := &BurstCase{Ambient: genAmbient(t), N: rapid.SampledFrom([]int{20, 50, 200, 300, 400}).Draw(t, "n"), Rounds: rapid.IntRange(2, 6).Draw(t, "rounds"), Procs: rapid.SampledFrom([]int{2, 4, 16, 16}).Draw(t, "procs")}
+	c := &BurstCase{ViaAny: rapid.IntRange(0, 2).Draw(t, "viaAny") == 0, Ambient: genAmbient(t), N: rapid.SampledFrom([]int{20, 50, 200, 300, 400}).Draw(t, "n"), Rounds: rapid.IntRange(2, 6).Draw(t, "rounds"), Procs: rapid.SampledFrom([]int{2, 4, 16, 16}).Draw(t, "procs")}
 	nh := rapid.IntRange(1, 2).Draw(t, "nh")
 	for i := 0; i < nh; i++ {
 		c.Handlers = append(c.Handlers, H{Ctx: rapid.Bool().Draw(t, "ctx"), Async: true, SeqFirst: rapid.Bool().Draw(t, "seqFirst")})
